@@ -1,537 +1,144 @@
 """C04 / C05 / C14: the verification guards, the naming / key-derivation scheme and the serialisation hints the symbolic model
-(`ReplicatModel/Sym.lean`) is parameterised by, read from the AST of replicat/repository.py, replicat/utils/adapters.py and
+(`ReplicatModel/Sym.lean`) is parameterised by, read from replicat/repository.py, replicat/utils/adapters.py and
 replicat/utils/__init__.py.
 
-Every flag is `true` only when the exact shape the model mirrors is found (variable names are free, the data flow is not);
-anything else yields `false` together with a note, and the theorems in Properties/C04|C05|C14.lean that discharge the flag by
-`decide` stop compiling (= broken proof obligation, reported by the check; the direct oracles then look for a failing input).
+The facts are SEMANTIC: `tools/symflow.py` enumerates the control-flow paths of the functions concerned (locals substituted away,
+private helpers / nested functions / properties inlined, conditions normalised, one path per outcome of every test) and
+`tools/replicat_facts.py` asks, on those paths, which value reaches which call after which comparison.  Renaming locals or private
+helpers, extracting or inlining a helper, swapping if/else branches, early returns, conditional expressions, hoisting a value into a
+local, extra logging … leave the facts unchanged; removing the structure a theorem relies on (a guard that no longer precedes the use,
+a key derived from something else, a name that is not the MAC of the digest) makes the fact `false` / `opaque`, and the theorems
+in Properties/C04|C05|C14.lean that discharge it by `decide` stop compiling (= broken proof obligation, reported by the check; the
+direct oracles then look for a failing input).  Code that cannot be analysed yields `false` / `opaque` plus a note, never `true`.
 """
-import ast
+import sys
+from pathlib import Path
 
-
-def _calls(node, suffix):
-    return [n for n in ast.walk(node) if isinstance(n, ast.Call) and ast.unparse(n.func).endswith(suffix)]
-
-
-def _hash_arg(node):
-    """`<x>.hash_digest(<arg>)` → unparse(arg)"""
-    if isinstance(node, ast.Call) and ast.unparse(node.func).endswith('.hash_digest') and len(node.args) == 1 and not node.keywords:
-        return ast.unparse(node.args[0])
-    return None
-
-
-def _raises(body):
-    return any(isinstance(n, ast.Raise) for st in body for n in ast.walk(st))
-
-
-def _returns_none(body):
-    return any(isinstance(n, ast.Return) and (n.value is None or ast.unparse(n.value) == 'None') for st in body for n in ast.walk(st))
-
-
-def _neq_guards(func):
-    """all `if A != B: …` (also `if not A == B`) inside func → list of (unparse A, unparse B, node A, node B, if-node)"""
-    out = []
-    for n in ast.walk(func):
-        if not isinstance(n, ast.If):
-            continue
-        tests = [n.test]
-        if isinstance(n.test, ast.BoolOp) and isinstance(n.test.op, ast.And):
-            tests = list(n.test.values)
-        for t in tests:
-            neg = False
-            if isinstance(t, ast.UnaryOp) and isinstance(t.op, ast.Not):
-                t, neg = t.operand, True
-            if isinstance(t, ast.Compare) and len(t.ops) == 1 and len(t.comparators) == 1:
-                if (isinstance(t.ops[0], ast.NotEq) and not neg) or (isinstance(t.ops[0], ast.Eq) and neg):
-                    n._conjuncts = len(tests)
-                    out.append((t.left, t.comparators[0], n))
-    return out
-
-
-def _assigned(func):
-    """simple `name = value` assignments inside func: name → list of value nodes"""
-    d = {}
-    for n in ast.walk(func):
-        if isinstance(n, ast.Assign) and len(n.targets) == 1 and isinstance(n.targets[0], ast.Name):
-            d.setdefault(n.targets[0].id, []).append(n.value)
-        if isinstance(n, ast.NamedExpr) and isinstance(n.target, ast.Name):
-            d.setdefault(n.target.id, []).append(n.value)
-    return d
+sys.path.insert(0, str(Path(__file__).resolve().parent.parent))
+import replicat_facts as rf  # noqa: E402
+import symflow_fmt as symflow  # noqa: E402
 
 
 def _b(x):
     return 'true' if x else 'false'
 
 
+def _strs(xs):
+    return '[' + ', '.join('"%s"' % k for k in xs) + ']'
+
+
+def _run(notes, key, fn, an, default):
+    """an analysis never takes the extractor down: a crash is a note and all its facts are false"""
+    try:
+        r = fn(an)
+    except Exception as e:  # noqa: BLE001
+        notes[key] = f'analysis failed: {e!r}'
+        return dict(default)
+    if r.get('why'):
+        notes[key] = r['why']
+    return r
+
+
 def section(ctx):
-    rsrc = (ctx.REPO / 'replicat' / 'repository.py').read_text()
-    rtree = ast.parse(rsrc)
-    asrc = (ctx.REPO / 'replicat' / 'utils' / 'adapters.py').read_text()
-    atree = ast.parse(asrc)
-    usrc = (ctx.REPO / 'replicat' / 'utils' / '__init__.py').read_text()
-    utree = ast.parse(usrc)
+    an = symflow.analyzer_for(ctx.REPO)
+    rtree = an.mods['repository'].tree
+    atree = an.mods['adapters'].tree
+    utree = an.mods['utils'].tree
     notes = ctx.notes
+    for name, path in (('repository.Repository.restore._download_chunk', ('Repository', 'restore', '_download_chunk')),
+                       ('repository.Repository.snapshot._chunk_producer', ('Repository', 'snapshot', '_chunk_producer')),
+                       ('repository.Repository._chunk_digest_to_location_parts', ('Repository', '_chunk_digest_to_location_parts')),
+                       ('repository.Repository._snapshot_digest_to_location_parts', ('Repository', '_snapshot_digest_to_location_parts')),
+                       ('repository.Repository._load_snapshots._download_snapshot', ('Repository', '_load_snapshots', '_download_snapshot')),
+                       ('repository.Repository._download_snapshot_threadsafe', ('Repository', '_download_snapshot_threadsafe')),
+                       ('repository.Repository._encrypt_snapshot_body', ('Repository', '_encrypt_snapshot_body')),
+                       ('repository.Repository._decrypt_snapshot_body', ('Repository', '_decrypt_snapshot_body')),
+                       ('repository.Repository.init', ('Repository', 'init')),
+                       ('repository.Repository._add_key', ('Repository', '_add_key')),
+                       ('repository.Repository.restore_metadata', ('Repository', 'restore_metadata'))):
+        ctx.fp(name, ctx.find_func(rtree, *path))
+    ctx.fp('adapters.AEADCipherAdapterMixin.encrypt', ctx.find_func(atree, 'AEADCipherAdapterMixin', 'encrypt'))
+    ctx.fp('utils.type_hint', ctx.find_func(utree, 'type_hint'))
+    ctx.fp('utils.type_reverse', ctx.find_func(utree, 'type_reverse'))
 
-    # ---------------------------------------------------------------- restore: chunk verification
-    dl = ctx.find_func(rtree, 'Repository', 'restore', '_download_chunk')
-    ctx.fp('repository.Repository.restore._download_chunk', dl)
-    chunk_verified = chunk_key_ctx = chunk_loc_from_digest = False
-    if dl is not None:
-        params = [a.arg for a in dl.args.args]
-        dname = params[0] if params else 'digest'
-        asg = _assigned(dl)
-        # what is handed to the writers
-        written_vars = set()
-        for c in _calls(dl, '.submit'):
-            for a in c.args[1:]:
-                written_vars.add(ast.unparse(a))
-        # follow `x = memoryview(y)` one step
-        src_vars = set(written_vars)
-        for v in list(written_vars):
-            for val in asg.get(v, []):
-                if isinstance(val, ast.Call) and ast.unparse(val.func) in ('memoryview', 'bytes') and len(val.args) == 1:
-                    src_vars.add(ast.unparse(val.args[0]))
-        for left, right, ifn in _neq_guards(dl):
-            for a, b in ((left, right), (right, left)):
-                h = _hash_arg(a)
-                if h is not None and ast.unparse(b) == dname and h in src_vars and _raises(ifn.body) and ifn._conjuncts == 1:
-                    chunk_verified = True
-        # decrypt key = derive_shared_subkey(<digest param>)
-        decs = _calls(dl, '.decrypt')
-        chunk_key_ctx = bool(decs) and all(
-            len(c.args) == 2 and isinstance(c.args[1], ast.Call) and ast.unparse(c.args[1].func).endswith('.derive_shared_subkey')
-            and [ast.unparse(x) for x in c.args[1].args] == [dname] for c in decs)
-        locs = asg.get('location', [])
-        chunk_loc_from_digest = bool(locs) and all(ast.unparse(v) == f'self._chunk_digest_to_location({dname})' for v in locs)
-        if not chunk_verified:
-            notes['restore.chunk_verify'] = 'no `if hash_digest(<what is written>) != <expected digest>: raise` found in _download_chunk'
-        if not chunk_key_ctx:
-            notes['restore.chunk_key'] = 'chunk decryption key is not derive_shared_subkey(<expected digest>)'
-    else:
-        notes['restore._download_chunk'] = 'not found'
-    ctx.emit(f'def chunkDigestVerified : Bool := {_b(chunk_verified)}')
-    ctx.emit(f'def chunkReadKeyFromDigest : Bool := {_b(chunk_key_ctx)}')
-    ctx.emit(f'def chunkReadLocFromDigest : Bool := {_b(chunk_loc_from_digest)}')
-
-    # ---------------------------------------------------------------- snapshot: chunk encryption key
-    cp = ctx.find_func(rtree, 'Repository', 'snapshot', '_chunk_producer')
-    ctx.fp('repository.Repository.snapshot._chunk_producer', cp)
-    write_key_ok = False
-    if cp is not None:
-        asg = _assigned(cp)
-        dvals = [ast.unparse(v) for v in asg.get('digest', [])]
-        loop_var = None
-        for n in ast.walk(cp):
-            if isinstance(n, ast.For) and isinstance(n.target, ast.Name):
-                loop_var = n.target.id
-                break
-        encs = _calls(cp, '.encrypt')
-        write_key_ok = (dvals == [f'self.props.hash_digest({loop_var})'] and len(encs) == 1 and len(encs[0].args) == 2
-                        and ast.unparse(encs[0].args[0]) == loop_var
-                        and ast.unparse(encs[0].args[1]) == 'self.props.derive_shared_subkey(digest)')
-        locs = [ast.unparse(k.value) for c in _calls(cp, '_SnapshotChunk') for k in c.keywords if k.arg == 'location']
-        write_key_ok = write_key_ok and locs == ['self._chunk_digest_to_location(digest)']
-        if not write_key_ok:
-            notes['snapshot.chunk_key'] = 'chunk is not encrypted under derive_shared_subkey(hash_digest(chunk)) / stored at the digest location'
-    ctx.emit(f'def chunkWriteKeyFromDigest : Bool := {_b(write_key_ok)}')
-
-    # ---------------------------------------------------------------- names: MAC depths
-    def mac_depth(func, var, src):
-        """how many `self.props.mac(` layers separate `var` from `src` in the encrypted branch of func"""
-        asg = {}
-        for n in ast.walk(func):
-            if isinstance(n, ast.If) and ast.unparse(n.test) == 'self.props.encrypted':
-                for st in n.body:
-                    if isinstance(st, ast.Assign) and len(st.targets) == 1 and isinstance(st.targets[0], ast.Name):
-                        asg[st.targets[0].id] = st.value
-            if isinstance(n, ast.Assign) and isinstance(n.value, ast.IfExp) and ast.unparse(n.value.test) == 'self.props.encrypted' \
-                    and len(n.targets) == 1 and isinstance(n.targets[0], ast.Name):
-                asg[n.targets[0].id] = n.value.body
-        depth = 0
-        cur = ast.Name(id=var)
-        for _ in range(8):
-            if isinstance(cur, ast.Name) and cur.id == src:
-                return depth
-            if isinstance(cur, ast.Name) and cur.id in asg:
-                cur = asg[cur.id]
-                continue
-            if isinstance(cur, ast.Call) and ast.unparse(cur.func) == 'self.props.mac' and len(cur.args) == 1:
-                depth += 1
-                cur = cur.args[0]
-                continue
-            return None
-        return None
-
-    def plain_is_digest(func, var, src):
-        """unencrypted branch: var is `src` itself"""
-        for n in ast.walk(func):
-            if isinstance(n, ast.If) and ast.unparse(n.test) == 'self.props.encrypted':
-                for st in n.orelse:
-                    if isinstance(st, ast.Assign):
-                        names = []
-                        for t in st.targets:
-                            names.append(ast.unparse(t))
-                        if var in names and ast.unparse(st.value) == src:
-                            return True
-            if isinstance(n, ast.Assign) and isinstance(n.value, ast.IfExp) and ast.unparse(n.value.test) == 'self.props.encrypted' \
-                    and ast.unparse(n.targets[0]) == var and ast.unparse(n.value.orelse) == src:
-                return True
-        return False
-
-    cl = ctx.find_func(rtree, 'Repository', '_chunk_digest_to_location_parts')
-    ctx.fp('repository.Repository._chunk_digest_to_location_parts', cl)
-    name_depth = tag_depth = None
-    plain_ok = False
-    if cl is not None:
-        src = cl.args.posonlyargs[1].arg if len(cl.args.posonlyargs) > 1 else (cl.args.args[1].arg if len(cl.args.args) > 1 else 'digest')
-        rets = [n.value for n in ast.walk(cl) if isinstance(n, ast.Return) and isinstance(n.value, ast.Call)]
-        if len(rets) == 1:
-            kws = {k.arg: k.value for k in rets[0].keywords}
-            def hexvar(v):
-                if isinstance(v, ast.Call) and isinstance(v.func, ast.Attribute) and v.func.attr == 'hex' and isinstance(v.func.value, ast.Name) and not v.args:
-                    return v.func.value.id
-                return None
-            nv, tv = hexvar(kws.get('name')), hexvar(kws.get('tag'))
-            if nv and tv:
-                name_depth, tag_depth = mac_depth(cl, nv, src), mac_depth(cl, tv, src)
-                plain_ok = (plain_is_digest(cl, nv, src) and plain_is_digest(cl, tv, src)) or \
-                    any(isinstance(n, ast.Assign) and len(n.targets) == 2 and {ast.unparse(t) for t in n.targets} == {nv, tv} and ast.unparse(n.value) == src
-                        for n in ast.walk(cl))
-    if name_depth is None or tag_depth is None:
-        notes['chunk.names'] = 'naming scheme of _chunk_digest_to_location_parts not recognised'
+    # ---------------------------------------------------------------- restore: the chunk loader
+    # (found as THE function under `restore` that calls backend.download_stream, whatever it is called and however it is split)
+    ld = _run(notes, 'restore.chunk_loader', rf.chunk_loader, an, dict(found=False, verified=False, key_from_digest=False, loc={}))
+    # ---------------------------------------------------------------- snapshot: producer / worker / the uploaded snapshot object
+    q = _run(notes, 'snapshot.chunk_queue', rf.snapshot_queue, an,
+             dict(found=False, write_key_from_digest=False, name_depth=None, tag_depth=None, plain_name_is_digest=False, loc={}))
+    up = _run(notes, 'snapshot.upload', rf.snapshot_upload, an,
+              dict(stored_under_own_digest=False, name_is_digest=False, tag_depth=None, plain_tag_is_digest=False, body_scheme=False))
+    # the loader looks where the producer stores: same function of the digest, for an encrypted and for a plain repository
+    loc_same = bool(ld.get('found') and q.get('found')) and all(
+        len(ld['loc'].get(pol, ())) == 1 and ld['loc'].get(pol) == q['loc'].get(pol) for pol in (True, False))
+    if not loc_same:
+        notes['restore.chunk_location'] = 'the chunk loader does not download from the location the producer stores at (as functions of the digest)'
+    ctx.emit(f'def chunkDigestVerified : Bool := {_b(ld.get("verified"))}')
+    ctx.emit(f'def chunkReadKeyFromDigest : Bool := {_b(ld.get("key_from_digest"))}')
+    ctx.emit(f'def chunkReadLocFromDigest : Bool := {_b(loc_same)}')
+    ctx.emit(f'def chunkWriteKeyFromDigest : Bool := {_b(q.get("write_key_from_digest"))}')
+    if q.get('name_depth') is None or q.get('tag_depth') is None:
+        notes['chunk.names'] = 'naming scheme of chunks (name / tag = MAC^k(digest)) not recognised'
         ctx.emit('opaque chunkNameMacDepth : Nat')
         ctx.emit('opaque chunkTagMacDepth : Nat')
     else:
-        ctx.emit(f'def chunkNameMacDepth : Nat := {name_depth}')
-        ctx.emit(f'def chunkTagMacDepth : Nat := {tag_depth}')
-    ctx.emit(f'def chunkPlainNameIsDigest : Bool := {_b(plain_ok)}')
-
-    sl = ctx.find_func(rtree, 'Repository', '_snapshot_digest_to_location_parts')
-    ctx.fp('repository.Repository._snapshot_digest_to_location_parts', sl)
-    snap_tag_depth = None
-    snap_name_is_digest = snap_plain = False
-    if sl is not None:
-        src = sl.args.posonlyargs[1].arg if len(sl.args.posonlyargs) > 1 else (sl.args.args[1].arg if len(sl.args.args) > 1 else 'digest')
-        rets = [n.value for n in ast.walk(sl) if isinstance(n, ast.Return) and isinstance(n.value, ast.Call)]
-        if len(rets) == 1:
-            kws = {k.arg: k.value for k in rets[0].keywords}
-            snap_name_is_digest = 'name' in kws and ast.unparse(kws['name']) == f'{src}.hex()'
-            tv = kws.get('tag')
-            if isinstance(tv, ast.Call) and isinstance(tv.func, ast.Attribute) and tv.func.attr == 'hex' and isinstance(tv.func.value, ast.Name):
-                snap_tag_depth = mac_depth(sl, tv.func.value.id, src)
-                snap_plain = plain_is_digest(sl, tv.func.value.id, src)
-    if snap_tag_depth is None:
-        notes['snapshot.names'] = 'naming scheme of _snapshot_digest_to_location_parts not recognised'
+        ctx.emit(f'def chunkNameMacDepth : Nat := {q["name_depth"]}')
+        ctx.emit(f'def chunkTagMacDepth : Nat := {q["tag_depth"]}')
+    ctx.emit(f'def chunkPlainNameIsDigest : Bool := {_b(q.get("plain_name_is_digest"))}')
+    if up.get('tag_depth') is None:
+        notes['snapshot.names'] = 'naming scheme of snapshots (tag = MAC^k(digest of the uploaded bytes)) not recognised'
         ctx.emit('opaque snapTagMacDepth : Nat')
     else:
-        ctx.emit(f'def snapTagMacDepth : Nat := {snap_tag_depth}')
-    ctx.emit(f'def snapNameIsDigest : Bool := {_b(snap_name_is_digest)}')
-    ctx.emit(f'def snapPlainTagIsDigest : Bool := {_b(snap_plain)}')
+        ctx.emit(f'def snapTagMacDepth : Nat := {up["tag_depth"]}')
+    ctx.emit(f'def snapNameIsDigest : Bool := {_b(up.get("name_is_digest"))}')
+    ctx.emit(f'def snapPlainTagIsDigest : Bool := {_b(up.get("plain_tag_is_digest"))}')
+    ctx.emit(f'def snapStoredUnderOwnDigest : Bool := {_b(up.get("stored_under_own_digest"))}')
 
-    # the snapshot that is uploaded: digest of the serialized (encrypted) body → name/tag → location
-    sn = ctx.find_func(rtree, 'Repository', 'snapshot')
-    up_ok = False
-    if sn is not None:
-        asg = _assigned(sn)
-        ser = [ast.unparse(v) for v in asg.get('serialized_snapshot', [])]
-        dg = [ast.unparse(v) for v in asg.get('digest', []) if 'serialized_snapshot' in ast.unparse(v)]
-        up = [c for c in _calls(sn, '._upload_data') if len(c.args) == 2 and ast.unparse(c.args[1]) == 'serialized_snapshot']
-        up_ok = (ser == ['self._encrypt_snapshot_body(snapshot_body)'] and dg == ['self.props.hash_digest(serialized_snapshot)']
-                 and len(up) == 1 and ast.unparse(up[0].args[0]) == 'location'
-                 and [ast.unparse(v) for v in asg.get('location', []) if 'get_snapshot_location' in ast.unparse(v)] == ['self.get_snapshot_location(name=name, tag=tag)'])
-        if not up_ok:
-            notes['snapshot.upload'] = 'snapshot object is not uploaded at the location derived from hash_digest(serialized body)'
-    ctx.emit(f'def snapStoredUnderOwnDigest : Bool := {_b(up_ok)}')
+    # ---------------------------------------------------------------- snapshot loading: tag check, digest check, body
+    sl = _run(notes, 'load.snapshot', rf.snapshot_loader, an,
+              dict(tag_checked=False, digest_verified=False, expected_is_name=False, body_read=False, foreign_tolerated=False))
+    ctx.emit(f'def snapTagChecked : Bool := {_b(sl.get("tag_checked"))}')
+    ctx.emit(f'def snapExpectedDigestIsName : Bool := {_b(sl.get("expected_is_name"))}')
+    ctx.emit(f'def snapDigestVerified : Bool := {_b(sl.get("digest_verified"))}')
+    ctx.emit(f'def snapBodyWriteScheme : Bool := {_b(up.get("body_scheme"))}')
+    ctx.emit(f'def snapBodyReadScheme : Bool := {_b(sl.get("body_read"))}')
+    ctx.emit(f'def snapForeignDataTolerated : Bool := {_b(sl.get("foreign_tolerated"))}')
 
-    # ---------------------------------------------------------------- snapshot loading: tag check, digest check
-    ld = ctx.find_func(rtree, 'Repository', '_load_snapshots', '_download_snapshot')
-    ctx.fp('repository.Repository._load_snapshots._download_snapshot', ld)
-    tag_checked = name_expected = False
-    if ld is not None:
-        asg = _assigned(ld)
-        dvals = [ast.unparse(v) for v in asg.get('digest', [])]
-        for left, right, ifn in _neq_guards(ld):
-            pair = {ast.unparse(left), ast.unparse(right)}
-            conj = [ast.unparse(v) for v in ifn.test.values] if isinstance(ifn.test, ast.BoolOp) and isinstance(ifn.test.op, ast.And) else []
-            if pair == {'self.props.mac(digest)', 'bytes.fromhex(tag)'} and _returns_none(ifn.body) \
-                    and len(conj) == 2 and 'self.props.encrypted' in conj:
-                tag_checked = True
-        rets = [n.value for n in ast.walk(ld) if isinstance(n, ast.Return) and n.value is not None]
-        name_expected = dvals == ['bytes.fromhex(name)'] and any(
-            isinstance(r, ast.Call) and ast.unparse(r.func).endswith('._download_snapshot_threadsafe') and len(r.args) >= 2 and ast.unparse(r.args[1]) == 'digest'
-            for r in rets)
-        if not tag_checked:
-            notes['load.tag'] = 'tag check `encrypted and mac(digest) != fromhex(tag): return` not found'
-        if not name_expected:
-            notes['load.name'] = 'expected digest is not bytes.fromhex(name)'
-    ctx.emit(f'def snapTagChecked : Bool := {_b(tag_checked)}')
-    ctx.emit(f'def snapExpectedDigestIsName : Bool := {_b(name_expected)}')
+    # ---------------------------------------------------------------- key files
+    kf = _run(notes, 'key.files', rf.key_files, an,
+              dict(private_encrypted_before_emit=False, config_upload_only=False, userkey_is_kdf=False, private_keys=[]))
+    ctx.emit(f'def privateEncryptedBeforeEmit : Bool := {_b(kf.get("private_encrypted_before_emit"))}')
+    ctx.emit(f'def configUploadIsConfigOnly : Bool := {_b(kf.get("config_upload_only"))}')
+    ctx.emit(f'def userKeyIsKdfOfPassword : Bool := {_b(kf.get("userkey_is_kdf"))}')
+    ctx.emit('def privateSectionKeys : List String := ' + _strs(kf.get('private_keys') or []))
 
-    ds = ctx.find_func(rtree, 'Repository', '_download_snapshot_threadsafe')
-    ctx.fp('repository.Repository._download_snapshot_threadsafe', ds)
-    snap_verified = snap_verified_var = False
-    if ds is not None:
-        params = [a.arg for a in ds.args.args]
-        exp = params[2] if len(params) > 2 else 'expected_digest'
-        dec_args = [ast.unparse(c.args[0]) for c in _calls(ds, '._decrypt_snapshot_body') if c.args]
-        # the guard must sit on the download path: in the same block as (and after) the `_download_threadsafe` assignment
-        blocks = [ds.body] + [n.body for n in ast.walk(ds) if isinstance(n, (ast.If, ast.With, ast.Try))] + \
-                 [n.orelse for n in ast.walk(ds) if isinstance(n, (ast.If, ast.Try))]
-        for blk in blocks:
-            pos = None
-            for i, st in enumerate(blk):
-                if isinstance(st, ast.Assign) and isinstance(st.value, ast.Call) and ast.unparse(st.value.func).endswith('._download_threadsafe'):
-                    pos, var = i, ast.unparse(st.targets[0])
-            if pos is None:
-                continue
-            for st in blk[pos + 1:]:
-                if not isinstance(st, ast.If):
-                    continue
-                for left, right, ifn in _neq_guards(ast.Module(body=[st], type_ignores=[])):
-                    if ifn is not st:
-                        continue
-                    for a, b in ((left, right), (right, left)):
-                        h = _hash_arg(a)
-                        if h == var and ast.unparse(b) == exp and _raises(ifn.body) and dec_args == [h] and ifn._conjuncts == 1:
-                            snap_verified = True
-        if not snap_verified:
-            notes['load.digest'] = 'no `if hash_digest(<downloaded contents>) != <expected digest>: raise` guarding what is decrypted'
-    ctx.emit(f'def snapDigestVerified : Bool := {_b(snap_verified)}')
-
-    # ---------------------------------------------------------------- snapshot body layout
-    eb = ctx.find_func(rtree, 'Repository', '_encrypt_snapshot_body')
-    ctx.fp('repository.Repository._encrypt_snapshot_body', eb)
-    body_w = False
-    if eb is not None:
-        asg = _assigned(eb)
-        pv = [ast.unparse(v) for v in asg.get('encrypted_private_data', [])]
-        body = asg.get('encrypted_body', [])
-        d = next((v for v in body if isinstance(v, ast.Dict)), None)
-        if d is not None and pv == ["self.props.encrypt(self.serialize(snapshot_body['data']), self.props.userkey)"]:
-            items = {ast.literal_eval(k): ast.unparse(v) for k, v in zip(d.keys, d.values)}
-            body_w = (set(items) == {'chunks', 'data'} and items['data'] == 'encrypted_private_data'
-                      and items['chunks'] == "self.props.encrypt(self.serialize(snapshot_body['chunks']), self.props.derive_shared_subkey(self.props.hash_digest(encrypted_private_data)))")
-        rets = [ast.unparse(n.value) for n in ast.walk(eb) if isinstance(n, ast.Return) and n.value is not None]
-        body_w = body_w and rets == ['self.serialize(encrypted_body)']
-        if not body_w:
-            notes['snapshot.body'] = '_encrypt_snapshot_body: layout {chunks: enc(subkey(hash(enc data)), table), data: enc(userkey, data)} not recognised'
-    ctx.emit(f'def snapBodyWriteScheme : Bool := {_b(body_w)}')
-
-    db = ctx.find_func(rtree, 'Repository', '_decrypt_snapshot_body')
-    ctx.fp('repository.Repository._decrypt_snapshot_body', db)
-    body_r = tolerant = False
-    if db is not None:
-        decs = [ast.unparse(c) for c in _calls(db, '.decrypt')]
-        body_r = ("self.props.decrypt(body['chunks'], self.props.derive_shared_subkey(self.props.hash_digest(body['data'])))" in decs
-                  and "self.props.decrypt(body['data'], self.props.userkey)" in decs and len(decs) == 2)
-        for n in ast.walk(db):
-            if isinstance(n, ast.Try) and len(n.handlers) == 1 and ast.unparse(n.handlers[0].type or ast.Name(id='')) == 'exceptions.DecryptionError':
-                tb = ' '.join(ast.unparse(s) for s in n.body)
-                hb = ' '.join(ast.unparse(s) for s in n.handlers[0].body)
-                if "self.props.decrypt(body['data'], self.props.userkey)" in tb and hb == "body['data'] = None":
-                    tolerant = True
-        if not body_r:
-            notes['snapshot.body_read'] = '_decrypt_snapshot_body: key scheme not recognised'
-    ctx.emit(f'def snapBodyReadScheme : Bool := {_b(body_r)}')
-    ctx.emit(f'def snapForeignDataTolerated : Bool := {_b(tolerant)}')
-
-    # ---------------------------------------------------------------- key files: private section encrypted before it is emitted
-    def private_encrypted_before_emit(func, keyexpr):
-        if func is None:
-            return False
-        enc_line = None
-        emit_lines = []
-        for n in ast.walk(func):
-            if isinstance(n, ast.Assign) and ast.unparse(n.targets[0]) == "key['private']" and isinstance(n.value, ast.Call) \
-                    and ast.unparse(n.value.func).endswith('.encrypt') and len(n.value.args) == 2 \
-                    and ast.unparse(n.value.args[0]) == "self.serialize(key['private'])" and ast.unparse(n.value.args[1]) == keyexpr:
-                enc_line = n.lineno
-            if isinstance(n, ast.Call):
-                u = ast.unparse(n)
-                if (u.startswith('json.dumps(key') or u == 'self.serialize(key)'):
-                    emit_lines.append(n.lineno)
-        return enc_line is not None and bool(emit_lines) and all(ln > enc_line for ln in emit_lines)
-
-    init = ctx.find_func(rtree, 'Repository', 'init')
-    addk = ctx.find_func(rtree, 'Repository', '_add_key')
-    ctx.fp('repository.Repository.init', init)
-    ctx.fp('repository.Repository._add_key', addk)
-    p1 = private_encrypted_before_emit(init, 'props.userkey')
-    p2 = private_encrypted_before_emit(addk, "key_props['userkey']")
-    if not (p1 and p2):
-        notes['key.private'] = f'private section not encrypted under the user key before the key is emitted (init={p1}, add_key={p2})'
-    ctx.emit(f'def privateEncryptedBeforeEmit : Bool := {_b(p1 and p2)}')
-    # config upload is the serialized config only
-    cfg_ok = init is not None and [ast.unparse(c) for c in _calls(init, '._upload_data')] == ["self._upload_data('config', self.serialize(config))"]
-    ctx.emit(f'def configUploadIsConfigOnly : Bool := {_b(cfg_ok)}')
-    ik = ctx.find_func(rtree, 'Repository', '_instantiate_key')
-    uk_ok = False
-    if ik is not None:
-        asg = _assigned(ik)
-        uk_ok = [ast.unparse(v) for v in asg.get('userkey', [])] == ["kdf_type(**kdf_args).derive(password, params=key['kdf_params'])"]
-    ctx.emit(f'def userKeyIsKdfOfPassword : Bool := {_b(uk_ok)}')
-    mk = ctx.find_func(rtree, 'Repository', '_make_key')
-    priv_keys = []
-    if mk is not None:
-        for n in ast.walk(mk):
-            if isinstance(n, ast.Assign) and ast.unparse(n.targets[0]) == 'private' and isinstance(n.value, ast.Dict):
-                priv_keys = [ast.literal_eval(k) for k in n.value.keys]
-    ctx.emit('def privateSectionKeys : List String := [' + ', '.join('"%s"' % k for k in priv_keys) + ']')
-
-    # ---------------------------------------------------------------- adapters: nonce per encryption; shared sub-key derivation
-    enc = ctx.find_func(atree, 'AEADCipherAdapterMixin', 'encrypt')
-    ctx.fp('adapters.AEADCipherAdapterMixin.encrypt', enc)
-    nonce_ok = False
-    if enc is not None:
-        asg = _assigned(enc)
-        nv = [ast.unparse(v) for v in asg.get('nonce', [])]
-        rets = [ast.unparse(n.value) for n in ast.walk(enc) if isinstance(n, ast.Return) and n.value is not None]
-        nonce_ok = nv == ['os.urandom(self._nonce_bytes)'] and rets == ['nonce + cipher.encrypt(nonce, data, None)']
-        if not nonce_ok:
-            notes['aead.nonce'] = 'AEAD encrypt does not draw a fresh os.urandom nonce per call / does not prepend it'
-    ctx.emit(f'def nonceFreshPerEncrypt : Bool := {_b(nonce_ok)}')
-    dsk = ctx.find_func(rtree, 'RepositoryProps', 'derive_shared_subkey')
-    sub_ok = False
-    if dsk is not None:
-        rets = [n.value for n in ast.walk(dsk) if isinstance(n, ast.Return) and isinstance(n.value, ast.Call)]
-        if len(rets) == 1 and ast.unparse(rets[0].func) == 'self.shared_kdf.derive':
-            a = [ast.unparse(x) for x in rets[0].args]
-            kw = {k.arg: ast.unparse(k.value) for k in rets[0].keywords}
-            param = dsk.args.args[1].arg
-            sub_ok = a == ["self.private['shared_key']"] and kw == {'context': param, 'params': "self.private['shared_kdf_params']"}
-    ctx.emit(f'def sharedSubkeyScheme : Bool := {_b(sub_ok)}')
-    mc = ctx.find_func(rtree, 'RepositoryProps', 'mac')
-    mac_ok = False
-    if mc is not None:
-        rets = [ast.unparse(n.value) for n in ast.walk(mc) if isinstance(n, ast.Return) and n.value is not None]
-        mac_ok = rets == ["self.authenticator.mac(data, params=self.private['mac_params'])"]
-    ctx.emit(f'def macScheme : Bool := {_b(mac_ok)}')
+    # ---------------------------------------------------------------- adapters: nonce per encryption; shared sub-key derivation; MAC
+    nn = _run(notes, 'aead.nonce', rf.aead_nonce, an, dict(nonce_fresh=False))
+    ctx.emit(f'def nonceFreshPerEncrypt : Bool := {_b(nn.get("nonce_fresh"))}')
+    pp = _run(notes, 'props.primitives', rf.props_primitives, an, dict(subkey_scheme=False, mac_scheme=False))
+    ctx.emit(f'def sharedSubkeyScheme : Bool := {_b(pp.get("subkey_scheme"))}')
+    ctx.emit(f'def macScheme : Bool := {_b(pp.get("mac_scheme"))}')
 
     # ---------------------------------------------------------------- metadata fallback (pre-1.3 snapshots)
-    rm = ctx.find_func(rtree, 'Repository', 'restore_metadata')
-    ctx.fp('repository.Repository.restore_metadata', rm)
-    ns_keys, legacy_keys, fb = [], [], False
-    if rm is not None:
-        mname = rm.args.args[2].arg if len(rm.args.args) > 2 else (rm.args.posonlyargs[2].arg if len(rm.args.posonlyargs) > 2 else 'metadata')
-        for n in ast.walk(rm):
-            if isinstance(n, ast.Try) and len(n.handlers) == 1 and ast.unparse(n.handlers[0].type or ast.Name(id='')) == 'KeyError' and n.orelse:
-                subs = [s for st in n.body for s in ast.walk(st) if isinstance(s, ast.Subscript) and ast.unparse(s.value) == mname]
-                ns_keys = [ast.literal_eval(s.slice) for s in subs]
-                hsubs = [s for st in n.handlers[0].body for s in ast.walk(st) if isinstance(s, ast.Subscript) and ast.unparse(s.value) == mname]
-                legacy_keys = [ast.literal_eval(s.slice) for s in hsubs]
-                h_ut = [c for st in n.handlers[0].body for c in _calls(st, 'os.utime')]
-                e_ut = [c for st in n.orelse for c in _calls(st, 'os.utime')]
-                fb = (len(h_ut) == 1 and [k.arg for k in h_ut[0].keywords] == ['times'] and len(e_ut) == 1 and [k.arg for k in e_ut[0].keywords] == ['ns']
-                      and ast.unparse(e_ut[0].keywords[0].value) in {ast.unparse(t) for st in n.body if isinstance(st, ast.Assign) for t in st.targets})
-    if not fb:
-        notes['metadata.fallback'] = 'restore_metadata: try ns keys / except KeyError → times=(legacy keys) / else ns=… not recognised'
-    ctx.emit('def metaNsKeys : List String := [' + ', '.join('"%s"' % k for k in ns_keys) + ']')
-    ctx.emit('def metaLegacyKeys : List String := [' + ', '.join('"%s"' % k for k in legacy_keys) + ']')
-    ctx.emit(f'def metaFallbackOnKeyError : Bool := {_b(fb)}')
+    md = _run(notes, 'metadata.fallback', rf.metadata_fallback, an, dict(ns_keys=[], legacy_keys=[], fallback=False))
+    ctx.emit('def metaNsKeys : List String := ' + _strs(md.get('ns_keys') or []))
+    ctx.emit('def metaLegacyKeys : List String := ' + _strs(md.get('legacy_keys') or []))
+    ctx.emit(f'def metaFallbackOnKeyError : Bool := {_b(md.get("fallback"))}')
 
     # ---------------------------------------------------------------- JSON byte-string hint
-    th = ctx.find_func(utree, 'type_hint')
-    tr = ctx.find_func(utree, 'type_reverse')
-    ctx.fp('utils.type_hint', th)
-    ctx.fp('utils.type_reverse', tr)
-    hint_key = None
-    enc_std = dec_std = single = False
-    if th is not None:
-        for n in ast.walk(th):
-            if isinstance(n, ast.Return) and isinstance(n.value, ast.Dict) and len(n.value.keys) == 1:
-                hint_key = ast.literal_eval(n.value.keys[0])
-                enc_std = 'base64.standard_b64encode(' in ast.unparse(n.value.values[0])
-    rev_key = None
-    if tr is not None:
-        for n in ast.walk(tr):
-            if isinstance(n, ast.If) and ast.unparse(n.test).replace(' ', '') in ('len(object)!=1', 'notlen(object)==1'):
-                single = any(isinstance(s, ast.Return) and ast.unparse(s.value) == 'object' for s in n.body)
-            if isinstance(n, ast.Subscript) and ast.unparse(n.value) == 'object':
-                rev_key = ast.literal_eval(n.slice)
-            if isinstance(n, ast.Return) and isinstance(n.value, ast.Call) and ast.unparse(n.value.func) == 'base64.standard_b64decode':
-                dec_std = True
-    if hint_key is None or hint_key != rev_key:
-        notes['json.hint'] = f'type_hint key {hint_key!r} / type_reverse key {rev_key!r}'
+    jh = _run(notes, 'json.hint', rf.json_hints, an, dict(hint_key=None, standard_b64=False, single_key=False, uses_hints=False))
+    if not isinstance(jh.get('hint_key'), str) or '"' in jh['hint_key'] or '\\' in jh['hint_key']:
         ctx.emit('opaque bytesHintKey : String')
     else:
-        ctx.emit(f'def bytesHintKey : String := "{hint_key}"')
-    ctx.emit(f'def bytesHintStandardB64 : Bool := {_b(enc_std and dec_std)}')
-    ctx.emit(f'def typeReverseRequiresSingleKey : Bool := {_b(single)}')
-    ser = ctx.find_func(rtree, 'Repository', 'serialize')
-    de = ctx.find_func(rtree, 'Repository', 'deserialize')
-    hooks = (ser is not None and 'default=self.default_serialization_hook' in ast.unparse(ser)
-             and de is not None and 'object_hook=self.object_deserialization_hook' in ast.unparse(de))
-    ctx.emit(f'def serializeUsesHints : Bool := {_b(hooks)}')
+        ctx.emit(f'def bytesHintKey : String := "{jh["hint_key"]}"')
+    ctx.emit(f'def bytesHintStandardB64 : Bool := {_b(jh.get("standard_b64"))}')
+    ctx.emit(f'def typeReverseRequiresSingleKey : Bool := {_b(jh.get("single_key"))}')
+    ctx.emit(f'def serializeUsesHints : Bool := {_b(jh.get("uses_hints"))}')
 
     # ---------------------------------------------------------------- snapshot producer: the record of the file being read
-    # (C14 `inflight_*`): inside the read loop of `_stream_files` the record's `stream_end` is advanced by the length of the block
-    # that was read BEFORE that block is handed to the chunker, so that `_chunk_done` — which runs concurrently, while later blocks
-    # of the same file are still to be read — never sees a record that ends before the bytes the chunk was cut from.
-    sf = ctx.find_func(rtree, 'Repository', 'snapshot', '_stream_files')
-    adv, why = _stream_end_advanced(sf)
-    if not adv:
-        notes['stream_files.stream_end'] = why
-    ctx.emit(f'def streamEndAdvancedInReadLoop : Bool := {_b(adv)}')
-
-
-def _stream_end_advanced(sf):
-    """→ (recognised, note).  Shape looked for (names are free, statement order and data flow are not):
-
-        <rec> = _SnapshotFile(..., stream_start=<pos>, stream_end=<pos>)          # record starts empty at the stream position
-        while <blk> := <f>.read(<n>):     |  for <blk> in iter(lambda: <f>.read(<n>), b''):  |  while True: <blk> = <f>.read(<n>); if not <blk>: break
-            <pos> += len(<blk>)
-            <rec>.stream_end += len(<blk>)     |  <rec>.stream_end = <rec>.stream_end + len(<blk>)  |  <rec>.stream_end = <pos>  (after <pos> was advanced)
-            ...
-            yield <blk>
-    """
-    if sf is None:
-        return False, '_stream_files not found'
-    loops = []
-    for n in ast.walk(sf):
-        if isinstance(n, (ast.While, ast.For)):
-            src = ast.unparse(n.test if isinstance(n, ast.While) else n.iter)
-            body_reads = any(isinstance(c, ast.Call) and isinstance(c.func, ast.Attribute) and c.func.attr == 'read' for st in n.body for c in ast.walk(st))
-            if '.read' in src or (isinstance(n, ast.While) and body_reads):
-                loops.append(n)
-    if len(loops) != 1:
-        return False, f'{len(loops)} read loops in _stream_files'
-    loop = loops[0]
-    blk = None
-    if isinstance(loop, ast.While) and isinstance(loop.test, ast.NamedExpr):
-        blk = loop.test.target.id
-    elif isinstance(loop, ast.For) and isinstance(loop.target, ast.Name):
-        blk = loop.target.id
-    else:
-        for st in loop.body:
-            if isinstance(st, ast.Assign) and len(st.targets) == 1 and isinstance(st.targets[0], ast.Name) and '.read(' in ast.unparse(st.value):
-                blk = st.targets[0].id
-    if blk is None:
-        return False, 'block variable of the read loop not recognised'
-    ln = f'len({blk})'
-    yields = [i for i, st in enumerate(loop.body) if isinstance(st, ast.Expr) and isinstance(st.value, ast.Yield) and st.value.value is not None
-              and ast.unparse(st.value.value) == blk]
-    if len(yields) != 1:
-        return False, 'the read loop does not yield the block exactly once at its top level'
-    advanced_pos = set()     # stream-position expressions already advanced by len(block) in this iteration
-    ok = False
-    for st in loop.body[:yields[0]]:
-        if isinstance(st, ast.AugAssign) and isinstance(st.op, ast.Add) and ast.unparse(st.value) == ln:
-            tgt = ast.unparse(st.target)
-            if isinstance(st.target, ast.Attribute) and st.target.attr == 'stream_end':
-                ok = True
-            else:
-                advanced_pos.add(tgt)
-        elif isinstance(st, ast.Assign) and len(st.targets) == 1 and isinstance(st.targets[0], ast.Attribute) and st.targets[0].attr == 'stream_end':
-            tgt, val = ast.unparse(st.targets[0]), ast.unparse(st.value)
-            if val in (f'{tgt} + {ln}', f'{ln} + {tgt}') or val in advanced_pos:
-                ok = True
-    if not ok:
-        return False, 'stream_end of the file record is not advanced by len(block) inside the read loop before the block is yielded'
-    # the record must start empty at the current stream position
-    starts = [c for c in ast.walk(sf) if isinstance(c, ast.Call) and ast.unparse(c.func).endswith('_SnapshotFile')]
-    if len(starts) != 1:
-        return False, 'record construction not recognised'
-    kw = {k.arg: ast.unparse(k.value) for k in starts[0].keywords}
-    if 'stream_start' not in kw or kw.get('stream_start') != kw.get('stream_end'):
-        return False, 'the record does not start with stream_end == stream_start'
-    return True, ''
+    # (C14 `inflight_*`): between reading a block and handing it to the chunker the record's `stream_end` is advanced by the length
+    # of the block, so that `_chunk_done` — which runs concurrently, while later blocks of the same file are still to be read — never
+    # sees a record that ends before the bytes the chunk was cut from.
+    sfl = _run(notes, 'stream_files.stream_end', rf.stream_files, an, dict(advanced=False))
+    ctx.emit(f'def streamEndAdvancedInReadLoop : Bool := {_b(sfl.get("advanced"))}')
